@@ -27,7 +27,7 @@ def plan(tier):
                 'scans every record of level >= INFO (message, arguments, formatted traceback) and every result message '
                 'for canary windows in raw, hex, base64 and escaped form; a cell is (logger, level, source of the record)',
         'min_monitor': {'records_scanned': 3000, 'canaries_planted': 300, 'result_messages_scanned': 1000,
-                        'failure_paths_logged': 200},
+                        'failure_paths_logged': 200, 'clients_configured_with_a_password': 100},
         'assumptions': ['DEBUG records are allowed to carry encodings (the property is about the default level INFO)',
                         'a canary counts as leaked when any 12-character window of one of its printable forms appears'],
     }
@@ -286,6 +286,53 @@ def run_case(ctx, case):
                     bad()
                 except Exception:
                     ctx.count('failure_paths_logged')
+            # 5. clients that take their credentials from a configuration file or from arguments: the password (plain, and
+            #    in shapes a configuration parser may trip over) is a secret of the client's logs and of the server's
+            from kmip.pie.client import ProxyKmipClient
+            from kmip.services.kmip_client import KMIPProxy
+            from kmip.services.kmip_protocol import KMIPProtocol
+            body = ''.join(rng.choice('abcdefghijklmnopqrstuvwxyzABCDEFGHIJKLMNOPQRSTUVWXYZ0123456789') for _ in range(26))
+            shapes = [body, body[:9] + '%' + body[9:], body[:5] + '%(' + body[5:14] + ')s' + body[14:], body[:12] + '%%' + body[12:],
+                      body + '%', body[:7] + ' ' + body[7:], body[:8] + '#' + body[8:], body[:6] + '=' + body[6:], '"' + body + '"',
+                      body[:10] + '${' + body[10:18] + '}' + body[18:]]
+            for pw in rng.sample(shapes, 4):
+                for piece in [x for x in (pw, body[9:], body[:9], body[14:]) if len(x) >= 12]:
+                    ctx.scan.plant(piece, 'client-config-password')
+                ctx.count('canaries_planted')
+                conf = d + '/pykmip-%d.conf' % rng.randrange(10 ** 6)
+                with open(conf, 'w') as f:
+                    f.write('[client]\nhost=127.0.0.1\nport=5696\nkeyfile=/nonexistent\ncertfile=/nonexistent\nca_certs=/nonexistent\n'
+                            'cert_reqs=CERT_REQUIRED\nssl_version=PROTOCOL_SSLv23\ndo_handshake_on_connect=True\n'
+                            'suppress_ragged_eofs=True\nusername=alice\npassword=%s\n' % pw)
+                for how in ('pie-file', 'proxy-file', 'pie-arguments'):
+                    try:
+                        if how == 'pie-file':
+                            c = ProxyKmipClient(config='client', config_file=conf)
+                            proxy = c.proxy
+                        elif how == 'proxy-file':
+                            c = None
+                            proxy = KMIPProxy(config='client', config_file=conf)
+                        else:
+                            c = ProxyKmipClient(hostname='127.0.0.1', port=5696, cert='/nonexistent', key='/nonexistent', ca='/nonexistent',
+                                                username='alice', password=pw, config='client', config_file=None)
+                            proxy = c.proxy
+                        ctx.count('clients_configured_with_a_password')
+                    except Exception:
+                        ctx.count('client_configuration_refused')
+                        continue
+                    sock2 = rig.LoopSocket(srv.engine, cert, rng)
+                    proxy.socket = sock2
+                    proxy.protocol = KMIPProtocol(sock2)
+                    if c is not None:
+                        c._is_open = True
+                    for call in ((lambda: c.create(E.CryptographicAlgorithm.AES, 128)) if c is not None else (lambda: proxy.query(query_functions=[])),
+                                 (lambda: c.get('99999')) if c is not None else (lambda: proxy.get('99999')),
+                                 (lambda: c.locate()) if c is not None else (lambda: proxy.locate())):
+                        try:
+                            call()
+                            ctx.count('client_calls')
+                        except Exception:
+                            ctx.count('failure_paths_logged')
         finally:
             srv.close()
     ctx.count('records_scanned', ctx.scan.scanned - scanned0)
